@@ -29,12 +29,14 @@ ASSUMPTIONS = [
     'work list, decides what a two-fragment template yields',
     'the step clock sees GenRxnNet.py and ReactionQuery.py only; RDKit is C++',
 ]
-SMALL = ['C', 'CC', 'C=C', 'CO', 'C#C']
+SMALL = ['C', 'CC', 'C=C', 'CO', 'C#C', '[CH3]']
 LARGE = ['CCC', 'CCCC', 'CC(C)C', 'CC=C', 'CCO', 'COC', 'OCO', 'C=CC=C',
          'CC(C)O', 'OCCO',   # distinct molecules: seeds form a set
          # unusual but legal: hetero-atoms above their default valence,
          # formal charges (the valence filter works on default valences)
-         'CS(C)=O', 'C[N+](=O)[O-]', 'C[NH3+]', 'CSC', 'CN', 'CS', 'CP']
+         'CS(C)=O', 'C[N+](=O)[O-]', 'C[NH3+]', 'CSC', 'CN', 'CS', 'CP',
+         # radicals (a seed may be the radical of another seed)
+         '[CH2]C', '[CH2]', 'C[CH]C', '[OH]', 'C[O]', '[CH2]CO']
 
 _st = {}
 
